@@ -9,7 +9,9 @@ RULE = ("operation files of encode+decode calls over different small geometries 
         "executed sequentially (reference) and concurrently by N = 2, 4, 8, 16 threads of a ThreadSanitizer build, "
         "start-aligned with random yields, several rounds; every concurrent result must equal the sequential result "
         "of the same line; any TSan report fails the batch. Proof part: the generated list of writable static-storage "
-        "symbols of the fresh build is checked by `decide`, the frame property by induction")
+        "symbols of the fresh build is checked by `decide`, the frame property by induction"
+        '; the op mix includes decodes of corpus streams of every bitstream version (the frozen decode is the '
+        'run-alone reference) and refusing / accepting metadata encoders (own-oracle lines)')
 THEOREM_BACKED = "codec_path_has_no_shared_state (generated symbol list), codec_path_calls_no_hidden_state_function and codec_path_has_no_guarded_static (generated import list), frame_commutes, interleavings_agree"
 CORRESPONDENCE_ONLY = "absence of data races in the compiled code: observed under ThreadSanitizer, not proved"
 EXPLANATION = ("no mutable static storage on the codec path (regenerated from the binary on every run) + frame theorem; "
